@@ -417,7 +417,9 @@ class Linear1DGridManifoldInterpolationMethod(
 
             values = m*x + b
 
-            return (values, np.atleast_2d(m))
+            # Return a copy of the cached slope, so the caller cannot alter
+            # the cache through the returned gradients.
+            return (values, np.array(m, ndmin=2))
 
         # The line parametrization is not cached.
         # Calculate the line parametrization for all the given events.
@@ -467,7 +469,9 @@ class Linear1DGridManifoldInterpolationMethod(
         # Calculate the interpolated manifold values. The gradient is m.
         values = m*x + b
 
-        return (values, np.atleast_2d(m))
+        # Return a copy of the cached slope, so the caller cannot alter the
+        # cache through the returned gradients.
+        return (values, np.array(m, ndmin=2))
 
 
 class Parabola1DGridManifoldInterpolationMethod(
